@@ -652,11 +652,28 @@ def tab_void(p, res):
     so = p.cls('html_matcher.utils.ScannerOptions')
     init = so.methods.get('__init__')
     s = src_of(init.node) if init else ''
-    for want in ("options.get('xml', False)", "options.get('empty', default_empty)", "options.get('special', default_special)"):
-        if want not in s:
-            res.bad(F('TAB-VOID', so.module, 'html_matcher.utils.ScannerOptions.__init__', init.node, want, 'scanner option default changed'))
+    from .. import shape
+    opt_param = init.params[1] if init is not None and len(init.params) > 1 else 'options'
+    reads = {}          # option key -> default expression of every `<options>.get(key, default)` in __init__
+    if init is not None:
+        idefs = shape.defs_of(init.node, params=init.params)
+        for n in init.body_nodes():
+            if isinstance(n, ast.Call) and isinstance(n.func, ast.Attribute) and n.func.attr == 'get' and len(n.args) == 2 \
+                    and src_of(shape.expand(n.func.value, idefs)).split(' or ')[0].strip('()') == opt_param:
+                k = p.try_const(init, n.args[0])
+                if isinstance(k, str):
+                    reads.setdefault(k, []).append(n.args[1])
+    for key, want_src, want_val in (('xml', 'False', False), ('empty', 'default_empty', None), ('special', 'default_special', None)):
+        ds = reads.get(key)
+        if not ds:
+            res.undecided("ScannerOptions: default of %r" % key, "options.get(%r, %s) expected" % (key, want_src))
+        elif all(src_of(d) == want_src or (want_val is not None and p.try_const(init, d) is want_val) for d in ds):
+            res.ok("options.get(%r, %s)" % (key, want_src))
+        elif all(isinstance(p.try_const(init, d), (bool, int, str, list, tuple)) or isinstance(d, ast.Name) for d in ds):
+            res.bad(F('TAB-VOID', so.module, 'html_matcher.utils.ScannerOptions.__init__', init.node, "options.get(%r, %s)" % (key, src_of(ds[0])),
+                      'scanner option default changed (must be %s)' % want_src))
         else:
-            res.ok(want)
+            res.undecided("ScannerOptions: default of %r is %s" % (key, src_of(ds[0])), "options.get(%r, %s) expected" % (key, want_src))
     m2, node2, special = _const(p, 'html_matcher.utils', 'default_special')
     for name in ('script', 'style'):
         if name not in special:
@@ -868,10 +885,17 @@ def tab_formatters(p, res):
             res.bad(F('TAB-FORMATTERS', m, 'markup.FORMATTERS', node, 'FORMATTERS[%r]' % k, 'unexpected formatter entry'))
     f = p.func('markup.stringify')
     s = src_of(f.node)
-    if 'FORMATTERS.get(config.syntax, html)' not in s:
-        res.bad(F('TAB-FORMATTERS', f.module, f.short, f.node, 'formatter lookup', 'formatter must be FORMATTERS.get(config.syntax, html) so unknown syntaxes use the HTML formatter'))
+    gets = [n for n in f.body_nodes() if isinstance(n, ast.Call) and isinstance(n.func, ast.Attribute) and n.func.attr == 'get' and src_of(n.func.value) == 'FORMATTERS']
+    subs = [n for n in f.body_nodes() if isinstance(n, ast.Subscript) and src_of(n.value) == 'FORMATTERS' and isinstance(n.ctx, ast.Load)]
+    if gets and all(len(n.args) == 2 and p.resolve_expr(f, n.args[1]) is not None and p.resolve_expr(f, n.args[1]).kind == 'func'
+                    and p.resolve_expr(f, n.args[1]).obj is table.get('html', None) or (len(n.args) == 2 and src_of(n.args[1]) == 'html') for n in gets) and not subs:
+        res.ok('FORMATTERS.get(<syntax>, html)')
+    elif subs and not gets:
+        res.bad(F('TAB-FORMATTERS', f.module, f.short, subs[0], src_of(subs[0]), 'the formatter is looked up by subscript: an unknown syntax raises KeyError instead of using the HTML formatter'))
+    elif gets and any(len(n.args) == 1 for n in gets):
+        res.bad(F('TAB-FORMATTERS', f.module, f.short, gets[0], src_of(gets[0]), 'the formatter lookup has no default: an unknown syntax yields None (TypeError) instead of the HTML formatter'))
     else:
-        res.ok('FORMATTERS.get(config.syntax, html)')
+        res.undecided('markup.stringify: formatter lookup', 'FORMATTERS.get(config.syntax, html) expected')
     res.require_floor(5)
 
 
